@@ -46,7 +46,7 @@ ALPHABETS = [
     ["de", "stra\u00dfe", "strasse"],  # a letter whose case mapping does not round-trip (sharp s) next to its folded twin
 ]
 FOREIGN = "zz"
-FORMS = ["bare", "http", "schemeless", "upper", "dot", "split", "auth", "httpdot", "auth2", "dotport", "hostq", "hostfrag", "bareport", "wss", "baredslash", "bareq", "barefrag", "bareqdots", "auth3"]
+FORMS = ["bare", "http", "schemeless", "upper", "dot", "split", "auth", "httpdot", "auth2", "dotport", "hostq", "hostfrag", "bareport", "wss", "baredslash", "bareq", "barefrag", "bareqdots", "auth3", "bareqsurl"]
 NET_FAULTS = ["net_refused", "net_reset_on_read", "net_truncated", "net_garbage", "net_stale"]
 DISK_FAULTS = ["disk_open_error", "disk_write_error", "disk_close_error", "crash_during_write", "crash_between"]
 FAULT_KINDS = NET_FAULTS + DISK_FAULTS
@@ -149,6 +149,8 @@ def render(labels, form):
         u = "ftp://user:pw@%s/" % host
     elif form == "auth2":
         u = "http://first.last:p-w%%40d~@%s:8080/x?y#z" % host
+    elif form == "bareqsurl":
+        u = "%s/redirect?to=http://other.org/" % host
     elif form == "bareq":
         u = "%s?x=1" % host
     elif form == "barefrag":
